@@ -197,7 +197,35 @@ def run_mask(eng, p):
 
 
 # ------------------------------------------------------------- (C) contour
+def run_contour_replace(eng, p):
+    """mode='replace': a second store_feature('contour') in the same writer
+    session replaces the first set completely"""
+    m, n = p["m"], p["n"]
+    f = symh5.File("a.rtdc", "w")
+    g = f.require_group("events")
+    old, new = toks("old", m, (5, 2)), toks("new", n, (5, 2))
+    hw = make_writer(f, mode="replace")
+    with quiet():
+        hw.store_feature("contour", [SArr([t], int, (5, 2)) for t in old])
+        hw.store_feature("contour", [SArr([t], int, (5, 2)) for t in new])
+    cg = g["contour"]
+    eng.prove(z3.BoolVal(sorted(cg.keys(), key=int) ==
+                         [str(i) for i in range(n)]),
+              "contour (replace mode): entries stored under keys 0..K-1",
+              info={"keys": list(cg.keys())})
+    vals = []
+    for i in range(n):
+        if str(i) in cg:
+            x = cg[str(i)].data
+            vals.append(x.elems[0] if isinstance(x, SArr) else x)
+    same_tokens(eng, vals, new, "contour (replace mode): only the second "
+                "set is stored, in order")
+    return "ok"
+
+
 def run_contour(eng, p):
+    if p.get("replace"):
+        return run_contour_replace(eng, p)
     m, n = p["m"], p["n"]
     f = symh5.File("a.rtdc", "w")
     g = f.require_group("events")
@@ -391,6 +419,9 @@ def cases(tier, seed):
     for m in (0, 2):
         out.append(("contour m=%d n=3 two calls" % m, dict(
             kind="contour", m=m, n=3, reopened=False, split=1)))
+    for m, n in ((1, 1), (2, 1), (1, 3), (3, 2)):
+        out.append(("contour replace mode m=%d n=%d" % (m, n), dict(
+            kind="contour", m=m, n=n, replace=True)))
     for m in range(0, 3):
         for n in range(1, 3):
             out.append(("logs m=%d n=%d" % (m, n),
@@ -497,6 +528,23 @@ def replay(case, params, v):
                                         [len(x) for x in oldl]))
             key = "write_text|appended-line-longer-than-frozen-width|" \
                   "truncated"
+        elif p["kind"] == "contour" and p.get("replace"):
+            m, n = p["m"], p["n"]
+            conts = [np.arange(10).reshape(5, 2) + 100 * i
+                     for i in range(m + n)]
+            with RTDCWriter(path, mode="replace") as hw:
+                hw.store_feature("deform", np.linspace(.1, .2, max(n, 1)))
+                hw.store_feature("contour", conts[:m])
+                hw.store_feature("contour", conts[m:])
+            with h5py.File(path, "r") as h:
+                cg = h["events/contour"]
+                keys = sorted(cg.keys(), key=int)
+                if keys != [str(i) for i in range(n)] or any(
+                        not np.array_equal(cg[str(i)][:], conts[m + i])
+                        for i in range(n) if str(i) in cg):
+                    fails.append("replace mode: second set of %d contours "
+                                 "stored under keys %r" % (n, keys))
+            key = "write_ragged|replace-keys"
         elif p["kind"] == "contour":
             m, n = p["m"], p["n"]
             conts = [np.arange(10).reshape(5, 2) + 100 * i
